@@ -1,0 +1,68 @@
+//go:build verif
+
+package node
+
+import (
+	"hash/fnv"
+
+	"github.com/youzan/ZanRedisDB/raft/raftpb"
+)
+
+// Read-only view of the applied part of a replica's raft log for the verification harness
+// (/verif, property C04). Built only with -tags verif.
+
+// VerifLogEntry is one applied raft log entry: its position, the request ids it carries and a
+// hash of its payload.
+type VerifLogEntry struct {
+	Index    uint64
+	Term     uint64
+	ConfChg  bool
+	ReqIDs   []uint64
+	DataHash uint64
+}
+
+// VerifAppliedLog returns the entries of the raft storage in (first index .. applied index].
+// ok is false when the node is not running or the storage cannot be read.
+func (nd *KVNode) VerifAppliedLog() (ents []VerifLogEntry, ok bool) {
+	defer func() {
+		if e := recover(); e != nil {
+			ents, ok = nil, false
+		}
+	}()
+	if nd.rn == nil || nd.rn.raftStorage == nil {
+		return nil, false
+	}
+	st := nd.rn.raftStorage
+	first, err := st.FirstIndex()
+	if err != nil {
+		return nil, false
+	}
+	applied := nd.GetAppliedIndex()
+	if applied+1 <= first {
+		return nil, true
+	}
+	raw, err := st.Entries(first, applied+1, ^uint64(0))
+	if err != nil {
+		return nil, false
+	}
+	for _, e := range raw {
+		v := VerifLogEntry{Index: e.Index, Term: e.Term, ConfChg: e.Type == raftpb.EntryConfChange}
+		h := fnv.New64a()
+		h.Write(e.Data)
+		v.DataHash = h.Sum64()
+		if e.Type == raftpb.EntryNormal && e.Data != nil {
+			if e.DataType == int32(RedisV2Req) {
+				v.ReqIDs = append(v.ReqIDs, e.ID)
+			} else {
+				var reqList BatchInternalRaftRequest
+				if reqList.Unmarshal(e.Data) == nil {
+					for _, r := range reqList.Reqs {
+						v.ReqIDs = append(v.ReqIDs, r.Header.ID)
+					}
+				}
+			}
+		}
+		ents = append(ents, v)
+	}
+	return ents, true
+}
